@@ -257,7 +257,9 @@ func justifiedStore(m *mectx, fn *ssa.Function, st *ssa.Store) (bool, string) {
 				return
 			}
 			px := prioOf(func(v ssa.Value) bool { return isExtractOf(stripConv(v), lk, 0) })
-			if (px(bo.X) || px(bo.Y)) && dominatesInstr(bo, st) {
+			// (the exact condition under which the store may happen is decided by delayedSwitchRule; here: the comparison is made
+			// in this critical section, on the way to the store)
+			if (px(bo.X) || px(bo.Y)) && (dominatesInstr(bo, st) || mayPrecede(bo, st)) {
 				cmp = true
 			}
 		})
